@@ -61,6 +61,7 @@ class P(Prop):
         ("TracklibVerif.Props.C19", "TV.C19.rat_floor_ceil", "the driver's Rat.floor / Rat.ceil are the Int.floor / Int.ceil of the theorems"),
         ("TracklibVerif.Props.C19", "TV.C19.rounded_cell_in_grid", "in FLOATING-POINT arithmetic (the same model at rationals with every operation rounded; any monotone rounding with relative error u that keeps the integers up to the grid size): on the grid the constructor computes, every point of the extent, borders included, whatever rounding did to extent / resolution, gets a cell 0<=col<ncol, 0<=line<nrow (no IndexError, no wrap-around through a negative index) whose footprint contains it up to the rounding allowance ((x - xmin)(1 -+ u)^2 between the cell's edges; + u nrow ry for the lines)"),
         ("TracklibVerif.Props.C19", "TV.C19.rounded_conservation", "conservation for floats: with any monotone rounding that keeps the integers up to the grid size (no error bound needed) the scatter never fails, every value lands in exactly one cell of the grid, sizes sum to the number of observations, any per-value weight is conserved"),
+        ("TracklibVerif.Props.C19", "TV.C19.rounded_extent_contains_bbox", "the extent under rounding: for any monotone rounding with rnd 0 = 0, a bounding box of representable numbers and margin >= 0, the margin-enlarged extent the constructor computes in floats still contains the bounding box and is not inverted (every observation of the collection meets the hypotheses of rounded_cell_in_grid / rounded_conservation)"),
         ("TracklibVerif.Props.C19", "TV.C19.scatter_stops_at_outside", "the scatter loop meeting an observation outside the extent: the observations before it are in their cells, TypeError there, nothing after it is scattered (the partial state addCollectionToRaster leaves in a feature's grid)"),
         ("TracklibVerif.Props.C19Layout", "TV.C19.add_collection_by_name", "addCollectionToRaster depends on the tracks only through their positions and their values BY NAME for the features of the bands (any scalar type, floats included; any raster state, failing calls included)"),
         ("TracklibVerif.Props.C19Layout", "TV.C19.track_layout_sound", "a track whose features are built by ANY script of createAnalyticalFeature / removeAnalyticalFeature / setObsAnalyticalFeature calls on the concrete table (dictionary of ranks + Obs.features): what is read through the ranks is the table's content by name after the same script; one value per observation for every feature; no name twice"),
@@ -76,8 +77,8 @@ class P(Prop):
     partial = []
     open_statements = ["IEEE rounding inside the cell operators (the running sums of co_sum / co_avg, the half-sum of co_median) is outside the theorems "
                        "(aggregate_spec is a field statement); sampled by the transfer check on the float streams. The grid geometry under rounding is proved "
-                       "(rounded_cell_in_grid, rounded_conservation); that the margin-enlarged extent still contains the bounding box under rounding is not stated "
-                       "(it needs rnd to be idempotent on floats)",
+                       "(rounded_cell_in_grid, rounded_conservation), and so is that the margin-enlarged extent still contains the bounding box under rounding "
+                       "(rounded_extent_contains_bbox: any monotone rounding with rnd 0 = 0 that leaves the four bounding-box numbers, floats themselves, unchanged)",
                        "the exception path of addCollectionToRaster is stated for the TypeError of an observation outside the extent (add_collection_partial, partial_conservation, "
                        "partial_then_compute) under the hypothesis that every track has every feature with one value per observation (what the AnalyticalFeatureError test and the Track API guarantee); "
                        "they are field statements about the model at exact floor — which float observation counts as outside is the comparison of getCell (tie_getCell), compared on the float streams",
